@@ -104,10 +104,10 @@ theorem scanDesc_spec (B : Vector (Block V) n) (rd : Marks n) :
 
 /-- KeyCursor.Next keeps the descending invariant -/
 theorem next_desc {c : Cursor V n} (hwf : ∀ i : Fin n, BlockWF c.blocks[i]) {W : Int} (hdesc : c.ascending = false)
-    (inv : InvD c.blocks c.rd W c.current) (hpos : c.pos < n)
+    (inv : InvD c.blocks c.rd W c.current) (hpos : c.pos ≤ n)
     (hp2 : ∀ i ∈ c.current, (i.val : Int) ≤ c.pos) :
     ∃ c', c.next = some c' ∧ c'.blocks = c.blocks ∧ c'.rd = c.rd ∧ c'.ascending = false ∧
-      InvD c.blocks c.rd W c'.current ∧ c'.pos < n ∧ ∀ i ∈ c'.current, (i.val : Int) ≤ c'.pos := by
+      InvD c.blocks c.rd W c'.current ∧ c'.pos ≤ n ∧ ∀ i ∈ c'.current, (i.val : Int) ≤ c'.pos := by
   unfold Cursor.next
   cases hcur : c.current with
   | nil =>
@@ -121,7 +121,8 @@ theorem next_desc {c : Cursor V n} (hwf : ∀ i : Fin n, BlockWF c.blocks[i]) {W
       exact ⟨c, rfl, rfl, rfl, hdesc, hcur ▸ inv, hpos, hcur ▸ hp2⟩
     | true =>
       simp only [Bool.not_true, Bool.false_eq_true, if_false, hdesc]
-      obtain ⟨hdecr, hlef⟩ : rest.Pairwise (· > ·) ∧ ∀ b ∈ rest, b ≤ f := hcur ▸ inv.shape
+      have hshape : ShapeD (f :: rest) := by rw [← hcur]; exact inv.shape
+      obtain ⟨hdecr, hlef⟩ : rest.Pairwise (· > ·) ∧ ∀ b ∈ rest, b ≤ f := hshape
       have hfpos : (f.val : Int) ≤ c.pos := hp2 f (by rw [hcur]; exact List.mem_cons_self ..)
       have hbefore : ∀ j : Fin n, curVals c.blocks c.rd j ≠ [] → (j.val : Int) < c.pos ∧ isRead c.blocks c.rd j = false := by
         intro j hj
@@ -143,7 +144,7 @@ theorem next_desc {c : Cursor V n} (hwf : ∀ i : Fin n, BlockWF c.blocks[i]) {W
       cases r with
       | none =>
         simp only
-        refine ⟨_, rfl, rfl, rfl, rfl, ?_, hp0, by simp⟩
+        refine ⟨_, rfl, rfl, rfl, rfl, ?_, Int.le_of_lt hp0, by simp⟩
         refine { rmax := inv.rmax, rmin := inv.rmin, done := inv.done, cover := ?_, shape := trivial }
         intro j hj
         obtain ⟨h1, h2⟩ := hbefore j hj
@@ -151,7 +152,7 @@ theorem next_desc {c : Cursor V n} (hwf : ∀ i : Fin n, BlockWF c.blocks[i]) {W
       | some i =>
         simp only
         obtain ⟨hp', hpi, hir, hbetween⟩ := hspec
-        refine ⟨_, rfl, rfl, rfl, rfl, ?_, hp0, ?_⟩
+        refine ⟨_, rfl, rfl, rfl, rfl, ?_, Int.le_of_lt hp0, ?_⟩
         · refine { rmax := inv.rmax, rmin := inv.rmin, done := inv.done, cover := ?_, shape := ?_ }
           · intro j hj
             obtain ⟨h1, h2⟩ := hbefore j hj
@@ -197,7 +198,7 @@ theorem cntBelow_lt {B : Vector (Block V) n} {W W' : Int} (hW : W' ≤ W) {i : F
     ascending list of those points, each once. -/
 theorem drain_desc {B : Vector (Block V) n} (hwf : ∀ i : Fin n, BlockWF B[i]) (hord : OrderOKv B) :
     ∀ (k : Nat) (c : Cursor V n) (W : Int), c.blocks = B → c.ascending = false →
-      InvD B c.rd W c.current → c.pos < n → (∀ i ∈ c.current, (i.val : Int) ≤ c.pos) →
+      InvD B c.rd W c.current → c.pos ≤ n → (∀ i ∈ c.current, (i.val : Int) ≤ c.pos) →
       cntBelow B W < k →
       ∃ bs, c.drain k = some bs ∧ SortedV bs.reverse.flatten ∧ (∀ b ∈ bs, b ≠ []) ∧
         ∀ p, p ∈ bs.reverse.flatten ↔ IsWinner B p ∧ p.1 < W := by
@@ -244,7 +245,7 @@ theorem drain_desc {B : Vector (Block V) n} (hwf : ∀ i : Fin n, BlockWF B[i]) 
       refine ⟨(readLoop false B c.current c.rd).2.2 :: bs, by rw [hd]; rfl, ?_, ?_, ?_⟩
       · rw [List.reverse_cons, List.flatten_append]
         apply List.pairwise_append.2
-        refine ⟨hs, by simpa using hsv, ?_⟩
+        refine ⟨hs, by simp only [List.flatten_cons, List.flatten_nil, List.append_nil]; exact hsv, ?_⟩
         intro a ha b hb
         have := ((hm a).1 ha).2
         have hb' : b ∈ (readLoop false B c.current c.rd).2.2 := by simpa using hb
